@@ -344,7 +344,7 @@ func genAuth(r *hx.Rand) *authCase {
 			up = perm[r.Intn(nu)]
 		}
 		u, p := up[0], up[1]
-		switch r.Intn(12) {
+		switch r.Intn(14) {
 		case 0:
 			p += "x"
 		case 1:
@@ -363,6 +363,19 @@ func genAuth(r *hx.Rand) *authCase {
 			}
 		case 7:
 			return u + "::" + p
+		case 8:
+			// wrong password of the right length
+			if len(p) > 0 {
+				b := []byte(p)
+				i := r.Intn(len(b))
+				b[i] ^= byte(1 << uint(r.Intn(7)))
+				p = string(b)
+			}
+		case 9:
+			// another configured user's password
+			if nu > 0 {
+				p = perm[r.Intn(nu)][1]
+			}
 		}
 		return u + ":" + p
 	}
